@@ -42,8 +42,8 @@ ARITY = {"a": 2, "r": 1, "d": 1, "z": 1, "l": 1, "n": 1, "k": 1, "y": 1, "env": 
 #       copy).  While False clear_data is only run on unshared paths and modelled as content::set_length ("clrx":
 #       KeepPost flag stays); once True it is modelled as mpt_path_invalidate ("clr") and also run on forked
 #       paths; replay: docs/C10_clear_data_shared.replay.json
-PATCHED_PATH_ADD_SHARED = False
-PATCHED_CLEAR_DATA_SHARED = False
+PATCHED_PATH_ADD_SHARED = True
+PATCHED_CLEAR_DATA_SHARED = True
 
 
 def hx(bs):
